@@ -890,3 +890,75 @@ func (s *State) UnmarshalReuse(entry string, first []byte, b int) V {
 	}
 	return s.emit(ev)
 }
+
+// Scribble does to the packet under h what a caller is entitled to do with a value it owns: first it writes
+// into the spare capacity behind every slice the packet holds (what an append would do); the packet's
+// projection must not change, or two of its parts share memory. Then it changes every element of every
+// slice in place; the new value is recorded as a build event, and whatever the library decodes afterwards
+// must not be affected (a decoded packet that aliases a table of the package shows here).
+func (s *State) Scribble(h int) V {
+	x, ok := s.Pk[h]
+	if !ok {
+		return nil
+	}
+	before := absAny(x)
+	walkSlices(reflect.ValueOf(x), func(sl reflect.Value) {
+		full := sl.Slice3(0, sl.Cap(), sl.Cap())
+		for i := sl.Len(); i < full.Len(); i++ {
+			scribbleElem(full.Index(i), true)
+		}
+	})
+	ev := s.emit(V{"op": "scribble", "h": h, "post": post(before, x)})
+	walkSlices(reflect.ValueOf(x), func(sl reflect.Value) {
+		for i := 0; i < sl.Len(); i++ {
+			scribbleElem(sl.Index(i), false)
+		}
+	})
+	delete(s.spare, h)
+	delete(s.in, h)
+	s.emit(V{"op": "build", "h": h, "v": absAny(x), "rebuild": true, "scribbled": true})
+	return ev
+}
+
+// walkSlices calls f on every non-nil slice reachable from v through pointers, interfaces, structs and slices
+// (exported fields only), innermost first.
+func walkSlices(v reflect.Value, f func(reflect.Value)) {
+	switch v.Kind() {
+	case reflect.Ptr, reflect.Interface:
+		if !v.IsNil() {
+			walkSlices(v.Elem(), f)
+		}
+	case reflect.Struct:
+		for i := 0; i < v.NumField(); i++ {
+			if v.Type().Field(i).IsExported() {
+				walkSlices(v.Field(i), f)
+			}
+		}
+	case reflect.Slice:
+		if v.IsNil() {
+			return
+		}
+		for i := 0; i < v.Len(); i++ {
+			walkSlices(v.Index(i), f)
+		}
+		if v.CanSet() || v.Len() > 0 || v.Cap() > 0 {
+			f(v)
+		}
+	}
+}
+
+// scribbleElem changes one element: spare capacity gets a fixed pattern, live elements get their low bit
+// flipped (numbers) - pointers, interfaces, structs and strings are left as they are.
+func scribbleElem(e reflect.Value, spare bool) {
+	if !e.CanSet() {
+		return
+	}
+	switch e.Kind() {
+	case reflect.Uint8, reflect.Uint16, reflect.Uint32, reflect.Uint64:
+		if spare {
+			e.SetUint(0xC7 & (1<<uint(e.Type().Bits()) - 1))
+		} else {
+			e.SetUint(e.Uint() ^ 1)
+		}
+	}
+}
